@@ -6,6 +6,8 @@ import (
 	"errors"
 	"fmt"
 	"os"
+	"runtime"
+	"runtime/debug"
 	"sort"
 	"testing"
 	"time"
@@ -34,7 +36,8 @@ type item struct {
 
 const (
 	pairCutLimit = 200 // every pair of cuts for streams up to this many bytes
-	window       = 40  // boundary window half-width for mLargeWindow
+	windowBefore = 8   // mLargeWindow: cut offsets from this many bytes before ...
+	windowAfter  = 24  // ... to this many bytes after the start, every frame boundary and the end
 )
 
 // sequences appends every sequence of exactly k letters over set.
@@ -142,7 +145,7 @@ func buildItems(a *alphabet, thorough bool) []item {
 				}
 			}
 		}
-		sequences(a.large, 2, func(ls []*letter) { addLarge(ls, true, false) })
+		sequences(a.large, 2, func(ls []*letter) { addLarge(ls, false, true) })
 	}
 	// 5. triples
 	if thorough {
@@ -438,14 +441,14 @@ func (h *framerH) runItem(it item) error {
 	return nil
 }
 
-// windowCuts: every cut offset within `window` bytes of the start, of every
-// frame boundary and of the end of the stream.
+// windowCuts: every cut offset from windowBefore bytes before to windowAfter
+// bytes after the start, every frame boundary and the end of the stream.
 func windowCuts(st *stream) []int {
 	n := len(st.b)
 	set := map[int]bool{}
 	marks := append([]int{0, n}, st.ends...)
 	for _, m := range marks {
-		for c := m - window; c <= m+window; c++ {
+		for c := m - windowBefore; c <= m+windowAfter; c++ {
 			if c >= 1 && c <= n-1 {
 				set[c] = true
 			}
@@ -463,6 +466,13 @@ func windowCuts(st *stream) []int {
 func TestC10Framer(t *testing.T) {
 	r := rep.New("C10")
 	defer r.Write()
+	// The code under test allocates ~3 bytes per stream byte and run; with
+	// 64 KiB frames that is ~200 KB of garbage per run and a tiny live heap,
+	// i.e. a GC cycle every few runs. Collect by heap size instead, and do
+	// not let 16 shard processes start 16 GC workers each.
+	defer debug.SetGCPercent(debug.SetGCPercent(-1))
+	defer debug.SetMemoryLimit(debug.SetMemoryLimit(384 << 20))
+	defer runtime.GOMAXPROCS(runtime.GOMAXPROCS(2))
 	a := buildAlphabet()
 	h := newFramerH(r)
 
